@@ -168,6 +168,7 @@ fn case_direct(t: &mut Tape, ctx: &CaseCtx) -> CaseResult {
     let mut c = gen_cfg(t);
     let events_only = t.chance(1, 3);
     let reconfigure = t.chance(1, 4);
+    let reconf_style: Vec<usize> = (0..4).map(|_| t.choose(6)).collect();
     if t.chance(1, 6) {
         // a forced ETag: any visible-ASCII text
         const TOK: [&str; 8] = ["00", ":", "\"", "W/", "ab", "3045", " ", "~"];
@@ -215,8 +216,28 @@ fn case_direct(t: &mut Tape, ctx: &CaseCtx) -> CaseResult {
                 .map(|(i, a)| {
                     (
                         a.id.clone(),
-                        json!({"response": format!("{:?}", KINDS[c.kinds[i]]), "check_assertion": if c.disable_updates { "UpdatesDisabled" } else { "UpdatesEnabled" },
-                            "version": Value::Null, "cohort_assertion": Value::Null, "codebase": "fuchsia-pkg://mock.test/r/", "package_name": "p"}),
+                        {
+                            // the two optional assertions: given as null, left out altogether, or (version) set to the
+                            // version the client really reports
+                            let mut o = serde_json::Map::new();
+                            o.insert("response".into(), json!(format!("{:?}", KINDS[c.kinds[i]])));
+                            o.insert("check_assertion".into(), json!(if c.disable_updates { "UpdatesDisabled" } else { "UpdatesEnabled" }));
+                            match reconf_style[i] % 3 {
+                                0 => {
+                                    o.insert("version".into(), Value::Null);
+                                }
+                                1 => {}
+                                _ => {
+                                    o.insert("version".into(), json!(build_app(a).version.to_string()));
+                                }
+                            }
+                            if (reconf_style[i] / 3) % 2 == 0 {
+                                o.insert("cohort_assertion".into(), Value::Null);
+                            }
+                            o.insert("codebase".into(), json!("fuchsia-pkg://mock.test/r/"));
+                            o.insert("package_name".into(), json!("p"));
+                            Value::Object(o)
+                        },
                     )
                 })
                 .collect::<serde_json::Map<_, _>>()
